@@ -24,10 +24,15 @@ CLAIMED = {
     'C19': dict(
         text='Batch._create_bunches is verified against a boundary-array contract (ghost st/m): the bunches are adjacent non-empty slices of '
         '[*group specs, *job specs] in order, each within the count and byte limits, for all list contents and limits (loop invariant with ghost '
-        'prefix sums, discharged by z3); SpecBytes.__init__/n_bytes under contract; type filters and submission order decided on the AST.',
+        'prefix sums, discharged by z3); class SpecBytes under contract (real __init__ then real n_bytes getter: n_bytes is the byte length of '
+        'what goes on the wire, fields untouched, written by the class only); a quantifier-free open-bunch-within-limits lemma on the same '
+        'function; type filters and submission order decided on the AST; at the call site every sender in Batch._submit gets the bunches '
+        'that this call computed from the pending specs with this call\'s limits and submit passes its limits unchanged (def-use on the AST).',
         note=COMMON_NOTE + 'orjson.dumps uninterpreted; SpecBytes modelled by a constructor UF whose axioms are the proved postconditions of its methods; '
         'prefix-sum spec function axioms are definitional; meta-lemma L5 (adjacent slices concatenate to the list) is a paper argument. '
-        'Obligations the solver leaves unknown are only reported as violations when a witness replays on the real function.',
+        'Obligations the solver leaves unknown are only reported as violations when a witness replays on the real function. '
+        'bytes.decode is an uninterpreted text of at most as many characters as bytes; the submit/retry behaviour of the real Batch against a '
+        'recording client is a BOUNDED stand-in (144 two-call scenarios), not a proof; the call-site clause is a def-use fact of the AST.',
         technique='loop-invariant contract on real source, pyvc symbolic execution -> z3',
         design_ref='7/C19',
     ),
